@@ -3,7 +3,7 @@
    implementation produced; the model is applied to the implementation's previous tableau, so a
    disagreement is localised to one step. *)
 From Coq Require Import List Bool ZArith Arith Uint63.
-From VF Require Import Cliff.Tableau.
+From VF Require Import Cliff.Tableau Cliff.TableauPad.
 Import ListNotations.
 
 Inductive step :=
@@ -14,6 +14,7 @@ Inductive step :=
 | SThen (second after : tableau)                               (* self.then(second) *)
 | SInv (after : tableau)                                       (* self.inverse(), not advancing *)
 | SValid (v : bool)                                            (* _validate() *)
+| SCG (kq : nat) (gate : tableau) (axes : list nat) (after : tableau)   (* act_on of a kq-qubit CliffordGate object on axes *)
 | SSkip (after : tableau).                                     (* an operation outside the model: resynchronise *)
 
 Definition measure_ok (n q : nat) (bit : bool) (cur after : tableau) (outcome random : bool) : bool :=
@@ -33,6 +34,8 @@ Fixpoint run_steps (n : nat) (cur : tableau) (steps : list step) (k : nat) : opt
   | SThen second after :: r => if tab_eqb (tab_then n cur second) after then run_steps n after r (S k) else Some k
   | SInv after :: r => if tab_eqb (tab_inverse n cur) after then run_steps n cur r (S k) else Some k
   | SValid v :: r => if Bool.eqb (tab_validate n cur) v then run_steps n cur r (S k) else Some k
+  | SCG kq gate axes after :: r =>
+      if otab_eqb (act_cgate kq n axes gate cur) (Some after) then run_steps n after r (S k) else Some k
   | SSkip after :: r => run_steps n after r (S k)
   end.
 
